@@ -190,6 +190,14 @@ def case(rec, pvl, reader, key, tier, holder):
         plans.append([(rng.choice(("delete", "duplicate", "swap", "replace",
                                    "truncate")), rng.randrange(n), rng.choice(pool))
                       for _ in range(k)])
+    if reader == "ISIS":
+        # the only thing wrong is a dialect rule: a block begun with another
+        # dialect's spelling of the keyword (BEGIN_GROUP / BEGIN_OBJECT)
+        for i, t in enumerate(toks):
+            if t.kind == G.BEGIN:
+                alt = rng.choice(("BEGIN_", "Begin_", "begin_")) + t.text
+                plans.append([("replace", i, gt.Tok(G.BEGIN, alt, t.cls))])
+                rec.count("other_dialects_begin_keyword_cases")
     # a missing value (the tolerated anomaly, C08) combined with one more
     # damage: the repair paths must not hide the second anomaly
     from .c08 import assignments
